@@ -669,6 +669,15 @@ func describe(r *ev.Run) {
 	r.Assume("sqlite's own journal recovery (crash inside one SQL statement) and I/O errors other than a read-only database are not modelled; the clock is only compared one-sidedly; the exploration runs in a worker process so that a fatal error of the code under test is reported, not suffered")
 }
 
+// graphBudget is the wall-clock budget of one state graph (hitting it truncates the search:
+// exhaustive=false with the depth reached, never a verdict).
+func graphBudget(r *ev.Run) time.Duration {
+	if r.Quick() {
+		return 10 * time.Minute
+	}
+	return 30 * time.Minute
+}
+
 func run(r *ev.Run, id string) {
 	for _, c := range confs(!r.Quick()) {
 		c := c
@@ -677,6 +686,7 @@ func run(r *ev.Run, id string) {
 			New:         func() explore.Sys[Op] { return NewSys(r, id, c, id == "C03") },
 			CheckMerges: c.Prefill == 0,
 			MaxStates:   50000,
+			Deadline:    time.Now().Add(graphBudget(r)),
 		})
 		r.Sample("graph", map[string]interface{}{"config": c, "states": res.States, "transitions": res.Transitions, "depth": res.Depth, "fixpoint": res.Fixpoint, "merge_checks": res.MergeChecks})
 	}
